@@ -97,9 +97,17 @@ def isAnonAxisNone : Expr → Bool
   | .axis n none _ _ => n == anonName
   | _ => false
 
+/-- The ellipsis over the anonymous axis, `...`. -/
+def isEllAnon : Expr → Bool
+  | .ellipsis i _ _ _ => isAnonAxisNone i
+  | _ => false
+
+def Expr.isEllipsis : Expr → Bool | .ellipsis .. => true | _ => false
+
 /-- What may stand directly under an ellipsis besides the anonymous axis: an expression that prints as ONE token or
-    ONE delimiter group (not a list — printed with braces —, not an ellipsis — printed as `......`). -/
-def ellOperand (i : Expr) : Bool := i.isAxis || i.isFlat || i.isBrackets || i.isConcat
+    ONE delimiter group (not a list — printed with braces —, not an ellipsis other than `...` itself: `a......` is three
+    tokens in a row, while `......` re-parses as an ellipsis over `...`). -/
+def ellOperand (i : Expr) : Bool := i.isAxis || i.isFlat || i.isBrackets || i.isConcat || isEllAnon i
 
 mutual
 /-- Printable expression below `Args`, in normal form.  `inBr`: inside brackets; `allowList`: a `List` is allowed here
@@ -108,7 +116,7 @@ mutual
     * `FlattenedAxis` not directly over a `FlattenedAxis` (constructor invariant) or a `ConcatenatedAxis` (prints `((a + b))`,
       which re-parses without the outer parentheses);
     * `Brackets` not inside `Brackets` (removed by the parser), not empty;
-    * `Ellipsis` over the anonymous axis or over an `ellOperand`;
+    * `Ellipsis` over the anonymous axis or over an `ellOperand` (one axis / flattened axis / brackets / concatenation, or `...`);
     * `ConcatenatedAxis` of at least two axes / flattened axes;
     * `List` with 0 or ≥ 2 children, none of them a `List`. -/
 def PT (inBr allowList : Bool) : Expr → Bool
@@ -148,7 +156,7 @@ def Q (inBr allowList : Bool) : Expr → Bool
   | .axis .. => true
   | .flat i _ _ => !i.isFlat && Q inBr true i
   | .brackets i _ _ => !inBr && !i.isBrackets && i.ndim != some 0 && Q true true i
-  | .ellipsis i _ _ _ => (i.isAxis || i.isFlat || i.isBrackets || i.isConcat) && Q inBr false i
+  | .ellipsis i _ _ _ => (i.isAxis || i.isFlat || i.isBrackets || i.isConcat || i.isEllipsis) && Q inBr false i
   | .concat cs _ _ => decide (2 ≤ cs.length) && QL inBr cs
   | .list cs _ _ => allowList && cs.length != 1 && QL inBr cs
   | .args .. => false
